@@ -55,6 +55,17 @@ theorem fact_initialization_call_order :
       ["IsTrue", "NodeForNodeClaim", "GetCondition", "StartupTaintsRemoved", "KnownEphemeralTaintsRemoved",
        "RequestedResourcesRegistered", "draDriverPoolsPublished", "Patch", "SetTrue"] := by decide
 
+/-- the only guard on a Node condition in `Initialization.Reconcile` holds the NodeClaim back unless the `Ready`
+    condition's status IS `True` (so `Unknown`, `False` and a missing condition — status "" — all block): the
+    model's `Node.ready` -/
+theorem fact_ready_gate : Karp.Gen.Lifecycle.initConditionGates = [("Ready", "!=", "True")] := by decide
+
+/-- in `Registration.Reconcile` taints are told apart by `MatchTaint` (key and effect; the model's `Taint.matches`):
+    once to look for the unregistered taint, once inside the `Reject` that removes it; no whole-struct comparison
+    (which would also compare value and `timeAdded`) -/
+theorem fact_registration_taint_identity :
+    Karp.Gen.Lifecycle.registrationTaintCalls = ["MatchTaint", "Reject", "MatchTaint"] := by decide
+
 /-- the model's unregistered taint is the documented one -/
 theorem fact_unregistered_taint : Karp.Lifecycle.unregistered = unregisteredTaint := unregistered_eq
 
@@ -192,7 +203,7 @@ theorem C14_order_spec (sp : Spec) (fin : Bool) (steps : List Step) :
     reconcile was handed a stale copy that already said Registered (cache lag re-asserting an old status).
     Hypothesis: the NodeClaim does not itself list the unregistered taint among its taints. -/
 theorem C14_registered_pre (sp : Spec) (fin : Bool) (steps : List Step) (s : Step)
-    (h1 : Karp.Lifecycle.unregistered ∉ sp.taints) (h2 : Karp.Lifecycle.unregistered ∉ sp.startup) :
+    (h1 : cleanTaints sp.taints) (h2 : cleanTaints sp.startup) :
     let w := run sp (World.init fin) steps
     (step sp w s).1.claim.conds.r.status = .true_ → w.claim.conds.r.status ≠ .true_ →
       (step sp w s).2.isRec = true ∧
@@ -202,7 +213,7 @@ theorem C14_registered_pre (sp : Spec) (fin : Bool) (steps : List Step) (s : Ste
 /-- **C14_initialized_pre** — likewise for Initialized: exactly one Node, Ready, none of the NodeClaim's startup
     taints, no known ephemeral taint, the requested extended resource reported. -/
 theorem C14_initialized_pre (sp : Spec) (fin : Bool) (steps : List Step) (s : Step)
-    (h1 : Karp.Lifecycle.unregistered ∉ sp.taints) (h2 : Karp.Lifecycle.unregistered ∉ sp.startup) :
+    (h1 : cleanTaints sp.taints) (h2 : cleanTaints sp.startup) :
     let w := run sp (World.init fin) steps
     (step sp w s).1.claim.conds.i.status = .true_ → w.claim.conds.i.status ≠ .true_ →
       (step sp w s).2.isRec = true ∧
@@ -211,7 +222,7 @@ theorem C14_initialized_pre (sp : Spec) (fin : Bool) (steps : List Step) (s : St
 
 /-- with an up-to-date copy the stale-copy alternative is impossible: the precondition holds outright -/
 theorem C14_registered_pre_fresh (sp : Spec) (fin : Bool) (steps : List Step) (s : Step)
-    (h1 : Karp.Lifecycle.unregistered ∉ sp.taints) (h2 : Karp.Lifecycle.unregistered ∉ sp.startup) :
+    (h1 : cleanTaints sp.taints) (h2 : cleanTaints sp.startup) :
     let w := run sp (World.init fin) steps
     (step sp w s).2.view = w.claim →
     (step sp w s).1.claim.conds.r.status = .true_ → w.claim.conds.r.status ≠ .true_ →
@@ -222,7 +233,7 @@ theorem C14_registered_pre_fresh (sp : Spec) (fin : Bool) (steps : List Step) (s
   · exact h
 
 theorem C14_initialized_pre_fresh (sp : Spec) (fin : Bool) (steps : List Step) (s : Step)
-    (h1 : Karp.Lifecycle.unregistered ∉ sp.taints) (h2 : Karp.Lifecycle.unregistered ∉ sp.startup) :
+    (h1 : cleanTaints sp.taints) (h2 : cleanTaints sp.startup) :
     let w := run sp (World.init fin) steps
     (step sp w s).2.view = w.claim →
     (step sp w s).1.claim.conds.i.status = .true_ → w.claim.conds.i.status ≠ .true_ →
@@ -231,6 +242,57 @@ theorem C14_initialized_pre_fresh (sp : Spec) (fin : Bool) (steps : List Step) (
   rcases (C14_initialized_pre sp fin steps s h1 h2 a b).2 with h | h
   · rw [hfresh] at h; exact absurd h b
   · exact h
+
+/-- **C14_registered_taint_gone** — the unregistered taint is identified by key and effect: whatever value
+    (`--register-with-taints=karpenter.sh/unregistered=true:NoExecute`) or `timeAdded` stamp it carried when the Node
+    joined, when Registered becomes true (reconcile on the current copy) exactly one Node carries the provider id, it
+    has the registered label, and NO taint with that key and effect is left on it. -/
+theorem C14_registered_taint_gone (sp : Spec) (fin : Bool) (steps : List Step) (s : Step)
+    (h1 : cleanTaints sp.taints) (h2 : cleanTaints sp.startup) :
+    let w := run sp (World.init fin) steps
+    (step sp w s).2.view = w.claim →
+    (step sp w s).1.claim.conds.r.status = .true_ → w.claim.conds.r.status ≠ .true_ →
+      ∃ n, (step sp w s).1.nodes = [n] ∧ n.regLabel = true ∧
+        ∀ t ∈ n.taints, ¬(t.key = "karpenter.sh/unregistered" ∧ t.effect = "NoExecute") := by
+  intro w hfresh a b
+  exact registeredPre_elim (C14_registered_pre_fresh sp fin steps s h1 h2 hfresh a b)
+
+/-- **C14_initialized_ready_true** — Ready is tri-state and may be missing: when Initialized becomes true (reconcile on
+    the current copy) the single Node's Ready condition is there and says `True` — not `Unknown`, not `False`, not
+    "never posted" —, no taint on it has the key and effect of one of the NodeClaim's startup taints (whatever its
+    value / stamp), no taint on it is a known ephemeral one, and a requested extended resource is reported. -/
+theorem C14_initialized_ready_true (sp : Spec) (fin : Bool) (steps : List Step) (s : Step)
+    (h1 : cleanTaints sp.taints) (h2 : cleanTaints sp.startup) :
+    let w := run sp (World.init fin) steps
+    (step sp w s).2.view = w.claim →
+    (step sp w s).1.claim.conds.i.status = .true_ → w.claim.conds.i.status ≠ .true_ →
+      ∃ n, (step sp w s).1.nodes = [n] ∧ n.readyCond = .true_ ∧
+        (∀ st ∈ sp.startup, ∀ t ∈ n.taints, ¬(t.key = st.key ∧ t.effect = st.effect)) ∧
+        (∀ t ∈ n.taints, isEphemeral t = false) ∧ (sp.wantsRes = true → n.resOK = true) := by
+  intro w hfresh a b
+  exact initializedPre_elim (C14_initialized_pre_fresh sp fin steps s h1 h2 hfresh a b)
+
+/-- **C14_gate_unregistered** — the write registration makes: no taint that `MatchTaint`es the unregistered taint
+    survives `registerNode`, for every Node (any value, any `timeAdded` on its taints). -/
+theorem C14_gate_unregistered (sp : Spec) (m : Claim) (n : Node) :
+    ∀ t ∈ (registerNode sp m n).taints, t.matches Karp.Lifecycle.unregistered = false :=
+  registerNode_unregistered_gone sp m n
+
+/-- **C14_gate_ready** — the Ready gate of initialization: with a Ready condition that is anything but `True`
+    (`Unknown`, `False`, absent) initialization writes nothing, labels nothing, and leaves Initialized Unknown with
+    reason `NodeNotReady` — whatever else the Node looks like. -/
+theorem C14_gate_ready (sp : Spec) (f : Faults) (c : Ctx) (n : Node)
+    (hi : c.mem.conds.i.status = .unknown) (hr : c.mem.conds.r.status = .true_) (hp : c.mem.providerID = true)
+    (hl : f.nodeList = false) (hn : c.w.nodes = [n]) (hrc : n.readyCond ≠ .true_) :
+    (initialization sp f c).calls = c.calls ∧ (initialization sp f c).w = c.w ∧
+    (initialization sp f c).mem.conds.i.status = .unknown ∧
+    (initialization sp f c).mem.conds.i.reason = .nodeNotReady :=
+  initialization_not_ready sp f c n hi hr hp hl hn hrc
+
+/-- `MatchTaint` (the model's, and the specification's "same taint") does not see value or `timeAdded` -/
+theorem C14_taint_identity (a b : Taint) (v v' s s' : String) :
+    ({ a with value := v, stamp := s } : Taint).matches { b with value := v', stamp := s' } = a.matches b ∧
+    a.matches b = sameTaint a b := ⟨rfl, rfl⟩
 
 /-! ## The lifecycle moves forward -/
 
@@ -337,7 +399,7 @@ theorem C14_terminating_never_launched (sp : Spec) (w : World) (lag : Nat) (co :
     record of the model, for every NodeClaim spec (not listing the unregistered taint itself), every history, every
     outcome vector and every cache lag. -/
 theorem C14_model_meets_spec (sp : Spec) (fin : Bool) (steps : List Step)
-    (h1 : Karp.Lifecycle.unregistered ∉ sp.taints) (h2 : Karp.Lifecycle.unregistered ∉ sp.startup) :
+    (h1 : cleanTaints sp.taints) (h2 : cleanTaints sp.startup) :
     historyOK sp { prev := (World.init fin).claim, finEver := fin } (modelHistory sp (World.init fin) steps) = true :=
   historyOK_model sp h1 h2 steps (inv_init fin)
 
@@ -346,9 +408,9 @@ theorem C14_model_meets_spec (sp : Spec) (fin : Bool) (steps : List Step)
 section examples
 
 /-- a NodeClaim with one startup taint, one taint, an extended resource request -/
-def spec1 : Spec := { startup := [⟨"example.com/startup", "NoSchedule"⟩], taints := [⟨"example.com/dedicated", "NoSchedule"⟩], wantsRes := true }
+def spec1 : Spec := { startup := [{ key := "example.com/startup", effect := "NoSchedule" }], taints := [{ key := "example.com/dedicated", effect := "NoSchedule" }], wantsRes := true }
 
-def node1 : Node := { taints := [unregistered, ⟨"node.kubernetes.io/not-ready", "NoSchedule"⟩] }
+def node1 : Node := { taints := [unregistered, { key := "node.kubernetes.io/not-ready", effect := "NoSchedule" }] }
 
 def recon (lag : Nat := 0) (co : CreateOutcome := .ok) (f : Faults := {}) : Step := .reconcile lag co f {}
 
@@ -358,9 +420,9 @@ def happy : List Step := [
   recon 0 .ok { statusPatch := some .other },   -- instance created, status write fails
   recon 3,                                      -- retry on a lagging copy: the cache bridges
   .env (.nodeAppear node1), recon,
-  .env (.setReady true), recon,
-  .env (.rmTaint ⟨"node.kubernetes.io/not-ready", "NoSchedule"⟩), recon,
-  .env (.rmTaint ⟨"example.com/startup", "NoSchedule"⟩), recon,
+  .env (.setReady .true_), recon,
+  .env (.rmTaint { key := "node.kubernetes.io/not-ready", effect := "NoSchedule" }), recon,
+  .env (.rmTaint { key := "example.com/startup", effect := "NoSchedule" }), recon,
   .env (.setRes true), recon]
 
 example : (run spec1 (World.init false) happy).instances = 1 := by decide
@@ -415,6 +477,47 @@ example : (run spec1 (World.init false) (regress.take 3)).claim.conds.r.status =
     (run spec1 (World.init false) regress).claim.conds.l.status = .true_ ∧
     (run spec1 (World.init false) regress).instances = 1 := by decide
 
+/-- payload on taints, a Ready condition that is not there yet, then `Unknown`: the Node joins with
+    `karpenter.sh/unregistered=true:NoExecute` stamped with a `timeAdded`, and a startup taint whose value differs
+    from the NodeClaim's -/
+def node2 : Node := { taints := [{ key := "karpenter.sh/unregistered", effect := "NoExecute", value := "true", stamp := "2" },
+                                  { key := "example.com/startup", effect := "NoSchedule", value := "pending" }],
+                      readyCond := .absent, resOK := true }
+
+def payload : List Step := [
+  recon, .env (.nodeAppear node2), recon,                 -- Launched; Registered: the taint goes, value and stamp notwithstanding
+  .env (.rmTaint { key := "example.com/startup", effect := "NoSchedule" }), recon,   -- every other gate is open, Ready was never posted
+  .env (.setReady .unknown), recon,                       -- ... nor does Unknown count
+  .env (.setReady .true_), recon]
+
+example : (run spec1 (World.init false) (payload.take 3)).claim.conds.r.status = .true_ ∧
+    (run spec1 (World.init false) (payload.take 3)).nodes.map (·.taints.map (·.key)) =
+      [["example.com/startup", "example.com/dedicated"]] ∧
+    registeredPre spec1 (run spec1 (World.init false) (payload.take 3)).nodes = true := by decide
+/-- the startup taint the Node already had keeps its own value (`Taints.Merge` matches by key and effect) and is what
+    the condition message names -/
+example : (run spec1 (World.init false) (payload.take 3)).claim.conds.i.reason = .nodeNotReady ∧
+    ((run spec1 (World.init false) (payload.take 3)).nodes.map (·.taints.map (·.value))) = [["pending", ""]] := by decide
+example : (run spec1 (World.init false) (payload.take 5)).claim.conds.i.status = .unknown ∧
+    (run spec1 (World.init false) (payload.take 5)).claim.conds.i.reason = .nodeNotReady ∧
+    (run spec1 (World.init false) (payload.take 7)).claim.conds.i.status = .unknown ∧
+    (run spec1 (World.init false) (payload.take 7)).nodes.map (·.initLabel) = [false] ∧
+    (run spec1 (World.init false) payload).claim.conds.i.status = .true_ ∧
+    initializedPre spec1 (run spec1 (World.init false) payload).nodes = true := by decide
+example : historyOK spec1 { prev := (World.init false).claim, finEver := false } (modelHistory spec1 (World.init false) payload) = true := by
+  decide
+/-- ... and the judge rejects a record in which the Node kept the valued taint although Registered went true, or was
+    initialized on an `Unknown` Ready condition -/
+example : historyOK spec1 { prev := (World.init false).claim, finEver := false }
+    ((modelHistory spec1 (World.init false) (payload.take 3)).map (fun o => { o with nodes := o.nodes.map (fun n =>
+      { n with taints := n.taints ++ [{ key := "karpenter.sh/unregistered", effect := "NoExecute", value := "true" }] }) })) = false := by
+  decide
+example : historyOK spec1 { prev := (World.init false).claim, finEver := false }
+    ((modelHistory spec1 (World.init false) payload).map (fun o => { o with nodes := o.nodes.map (fun n =>
+      { n with readyCond := .unknown }) })) = false := by
+  decide
+
 end examples
 
 end Karp.C14
+
